@@ -558,6 +558,45 @@ def fail(res, key, what, rc):
         d[key] = d.get(key, 0) + 1
 
 
+MODEL_QUEUE = []
+MODEL_BUDGET = [120]
+
+
+def model_tie(bezier, res):
+    """run the queued pairs through the driver op algebraic_all_intersections (oracle protocol of harness/alg_oracle.py)"""
+    if not MODEL_QUEUE:
+        return
+    import alg_oracle
+    from bezier.hazmat import algebraic_intersection as AI
+    from bezier.hazmat import helpers as HH
+    par = alg_oracle.alg_params(AI)
+    w = alg_oracle.wiggle_default(HH)
+    outs = alg_oracle.model_all_intersections(par, w, [(q[1], q[2]) for q in MODEL_QUEUE])
+    agree = 0
+    for (rc, n1, n2, cols), out in zip(MODEL_QUEUE, outs):
+        ok = False
+        if out[0] == "ok":
+            mcols = [(float(a), float(b)) for a, b in zip(out[1], out[2])]
+            free = list(mcols)
+            ok = len(mcols) == len(cols)
+            for (a, b) in cols:
+                j = next((k for k, (u, v) in enumerate(free) if abs(a - u) <= 1e-9 and abs(b - v) <= 1e-9), None)
+                if j is None:
+                    ok = False
+                    break
+                free.pop(j)
+        if ok:
+            agree += 1
+        else:
+            res.mismatch("algebraic_all_intersections", rc, str(cols)[:300], str(out[:3])[:300],
+                         "the implementation returned exactly the certified set, the model of the algebraic strategy did not")
+    res.notes.append("model tie of the algebraic strategy (degree product <= 4, implementation = certified set): %d of %d pairs agree"
+                     % (agree, len(MODEL_QUEUE)))
+    d = res.dist.setdefault("algebraic_model_tie", {})
+    d["agree"] = agree
+    d["differ"] = len(MODEL_QUEUE) - agree
+
+
 def miss_rate_guard(res):
     """the (listed) low-rate silent misses of the algebraic strategy must stay low-rate: on the unchanged tree about 0.3 % of
     the in-domain pairs of degree product <= 4 lose a root; more than 2 % is reported under its own key"""
@@ -877,6 +916,11 @@ def check_compare(bezier, res, probe, c, route):
 
     if prod <= 4:
         res.count(key, verdict="both-equal-certified-set" if (g_ok and a_ok) else "deviation", **base)
+        if a_ok and route == "all_intersections" and max(pd1, pd2) <= 4 and len(MODEL_QUEUE) < MODEL_BUDGET[0]:
+            # tie of the Lean model of the algebraic strategy (Model/AlgebraicAssembly.lean; exact between the external numerics,
+            # which are answered with numpy's values): only where the implementation returned exactly the certified set, so that
+            # every threshold decision has a clear margin
+            MODEL_QUEUE.append((rc, n1, n2, [(float(a), float(b)) for a, b in acols]))
         if sa == "exc":
             probe.rec(deg, alg_refused=1)
             cls = ":" + refusal_class(b1, b2, roots, ma) if oa == "NotImplementedError" else ""
@@ -1127,6 +1171,8 @@ def main():
         res.notes.append("PINNED PROBE degree products 6..9: algebraic strategy silently misses a certified root on %d of %d "
                          "in-domain pairs (%.1f %%)" % (tot["miss"], tot["in"], 100.0 * tot["miss"] / tot["in"]))
     miss_rate_guard(res)
+    if not rep:
+        model_tie(bezier, res)
     res.emit()
     if rep:
         bad = bool(res.failures)
